@@ -246,7 +246,7 @@ fn list_lines(stdout: &str) -> BTreeSet<String> {
 /// the child died because an allocation failed under the sandbox's address-space limit: the
 /// library asked for gigabytes (a resource defect of its own, judged elsewhere); the exit
 /// status clauses of this property cannot be judged on such a run
-fn died_of_oom(r: &RunOut) -> bool {
+pub fn died_of_oom(r: &RunOut) -> bool {
     !r.ok() && r.stderr.contains("memory allocation of") && r.stderr.contains("failed")
 }
 
@@ -259,7 +259,7 @@ fn show(run: &RunOut) -> String {
 }
 
 /// `mpq list` / `mpq info` (/ `mpq tree`) against the library's view of the same archive
-fn check_views(sb: &Sandbox, arch: &str, with_tree: bool, ctx: &str) -> Result<Value, Fail> {
+pub fn check_views(sb: &Sandbox, arch: &str, with_tree: bool, ctx: &str) -> Result<Value, Fail> {
     let lib = match oracle::ask(&Entry::MpqTree, &sb.path(arch)) {
         Verdict::Ok(v) => v,
         v => {
@@ -461,7 +461,7 @@ fn note(s: &str) {
 
 /// put stale files where the extraction is going to write (the tool overwrites its targets:
 /// exit 0 means the complete output was produced, whatever was there before)
-fn prefill(sb: &Sandbox, mode: u8, preserve: bool, targets: &[(String, usize)]) -> usize {
+pub fn prefill(sb: &Sandbox, mode: u8, preserve: bool, targets: &[(String, usize)]) -> usize {
     let mut n = 0;
     if mode == 0 {
         return 0;
